@@ -435,7 +435,7 @@ func randContent(r *rand.Rand, n int) []byte {
 }
 
 // genRand: every length 0..40 (all tail classes of both murmur variants, twice), then random
-// lengths up to 300
+// lengths up to 300 (longer strings: the sweep's space of one string of every length)
 func genRand(c *core.Ctx) []call {
 	r := c.Rng("rand", 0)
 	var cs []call
